@@ -113,7 +113,7 @@ func Expected(r Response) []string {
 }
 
 func chanState(ch *tds.Channel) string {
-	return hlib.Dump(ch, "*tds.Conn", "sync.RWMutex", "*sync.Mutex", "sync.Mutex", "[]tds.EEDHook", "[]tds.EnvChangeHook")
+	return hlib.Dump(ch, "*tds.Conn", "sync.RWMutex", "*sync.Mutex", "sync.Mutex", "vsync.RWMutex", "*vsync.Mutex", "vsync.Mutex", "[]tds.EEDHook", "[]tds.EnvChangeHook")
 }
 
 // RunRounds executes the rounds on one fresh connection in one controlled
